@@ -9,8 +9,8 @@ import (
 	"time"
 
 	"github.com/atlassian/escalator/pkg/metrics"
-	dto "github.com/prometheus/client_model/go"
 	"github.com/prometheus/client_golang/prometheus"
+	dto "github.com/prometheus/client_model/go"
 	v1 "k8s.io/api/core/v1"
 
 	"verifharness/ref"
@@ -57,44 +57,46 @@ func (gv *GroupView) Node(name string) *v1.Node {
 
 // GroupRec is what happened while one group was processed in a scan.
 type GroupRec struct {
-	G         int
-	Processed bool // a GetNodeGroup marker for this group was seen
-	Seg       []sim.Entry
-	GV        *GroupView
-	EffMin    int
-	EffMax    int
-	Dry       bool
-	CachedSize v1.ResourceList // "last observed node size" the controller holds when this scan decides (nil: none)
-	PrevIncreaseFailed bool // the previous scan's cloud scale-up of this group failed (no lock may result)
-	Locked    bool      // lock model says locked when processing started
-	LockT0    time.Time // valid when Locked
-	Start     time.Time // virtual time of the marker
+	G                  int
+	Processed          bool // a GetNodeGroup marker for this group was seen
+	Seg                []sim.Entry
+	GV                 *GroupView
+	EffMin             int
+	EffMax             int
+	Dry                bool
+	CachedSize         v1.ResourceList // "last observed node size" the controller holds when this scan decides (nil: none)
+	PrevIncreaseFailed bool            // the previous scan's cloud scale-up of this group failed (no lock may result)
+	Locked             bool            // lock model says locked when processing started
+	LockT0             time.Time       // valid when Locked
+	Start              time.Time       // virtual time of the marker
 
 	// derived from Seg
-	TaintPut    []string // PUT that added the escalator taint, accepted
-	TaintNoop   []string // GET showed the taint already there (success without PUT)
-	UntaintPut  []string // PUT that removed the escalator taint, accepted
-	UntaintNoop []string // GET showed no taint to remove (success without PUT)
-	Failed      map[string]bool
-	TermOK      []string // instance ids accepted by TerminateInstanceInAutoScalingGroup
-	TermFail    int
-	Deleted     []string // node names deleted
-	DeleteFail  int
-	OtherPuts   []string // accepted updates that neither added nor removed the escalator taint
-	Increase    []sim.Entry // SetDesiredCapacity / CreateFleet entries (any outcome)
+	TaintPut      []string // PUT that added the escalator taint, accepted
+	TaintNoop     []string // GET showed the taint already there (success without PUT)
+	UntaintPut    []string // PUT that removed the escalator taint, accepted
+	UntaintNoop   []string // GET showed no taint to remove (success without PUT)
+	Failed        map[string]bool
+	TermOK        []string // instance ids accepted by TerminateInstanceInAutoScalingGroup
+	TermFail      int
+	Deleted       []string // node names deleted
+	DeleteFail    int
+	OtherPuts     []string    // accepted updates that neither added nor removed the escalator taint
+	Increase      []sim.Entry // SetDesiredCapacity / CreateFleet entries (any outcome)
 	IncreaseCalls []sim.Entry // NodeGroup.IncreaseSize calls with outcome
 	DeleteCalls   []sim.Entry // NodeGroup.DeleteNodes calls with outcome
-	ScaleUpOK   bool        // a cloud scale-up was accepted in this segment
-	ScaleUpAt   time.Time
-	K8sWrites   int
-	AWSWrites   int
-	ListFault   bool
+	ScaleUpOK     bool        // a cloud scale-up was accepted in this segment
+	ScaleUpAt     time.Time
+	K8sWrites     int
+	AWSWrites     int
+	ListFault     bool
 
 	Gauge map[string]float64
 }
 
 // Tainted returns the nodes that count as tainted in this scan.
-func (r *GroupRec) TaintedNow() []string { return append(append([]string{}, r.TaintPut...), r.TaintNoop...) }
+func (r *GroupRec) TaintedNow() []string {
+	return append(append([]string{}, r.TaintPut...), r.TaintNoop...)
+}
 
 // UntaintedNow returns the nodes that count as untainted in this scan.
 func (r *GroupRec) UntaintedNow() []string {
@@ -103,25 +105,26 @@ func (r *GroupRec) UntaintedNow() []string {
 
 // ScanRecord is everything the monitors may look at for one scan.
 type ScanRecord struct {
-	Index     int
-	Epoch     int
-	Restarted bool // first scan of a controller incarnation
-	T0, T1    time.Time
-	Synced    bool
-	View      *sim.View
-	API       map[string]*v1.Node
-	ASGs      map[string]ASGSnap
-	Entries   []sim.Entry
-	Prelude   []sim.Entry // entries before the first group marker (refresh, rebuilds)
-	Groups    []*GroupRec
-	Err       error
-	Panic     any
-	Stack     string
-	FatalExit bool // logrus Fatal (documented exit after 3 fleet failures)
-	BuildErr  error
+	Index       int
+	Epoch       int
+	Restarted   bool // first scan of a controller incarnation
+	T0, T1      time.Time
+	Synced      bool
+	View        *sim.View
+	ViewAfter   *sim.View // the cache content when the scan returned (escalator must not have touched it)
+	API         map[string]*v1.Node
+	ASGs        map[string]ASGSnap
+	Entries     []sim.Entry
+	Prelude     []sim.Entry // entries before the first group marker (refresh, rebuilds)
+	Groups      []*GroupRec
+	Err         error
+	Panic       any
+	Stack       string
+	FatalExit   bool // logrus Fatal (documented exit after 3 fleet failures)
+	BuildErr    error
 	FaultsArmed []sim.Fault
-	FaultHits int
-	RealDur   time.Duration
+	FaultHits   int
+	RealDur     time.Duration
 }
 
 // Faulty reports whether any injected failure was hit in the scan.
@@ -256,6 +259,7 @@ func (w *World) Scan(sync bool, order []string) *ScanRecord {
 		w.Ctrl = nil
 	}
 	w.Last = rec
+	rec.ViewAfter = w.V.Clone()
 	w.recs = append(w.recs, rec)
 	return rec
 }
@@ -505,7 +509,6 @@ func briefTaints(n *v1.Node) []string {
 	}
 	return out
 }
-
 
 // SituationKey is a canonical digest of what a scan saw and did, per group: configuration
 // numbers, every node's class / taint-age bucket / occupancy / protection, exact utilisation
